@@ -45,6 +45,9 @@ and of the control spec (state field `big`, constant AsFound_NoSweepAtBigToleran
 C02_SolvedOnlyAfterSweep); every Step event carries tol_ge1 and the number of sweeps started (0 = none).
 "The magnitude of the values" in the residual bound = max(1, |x_k|_inf, |x_(k-1)|_inf) over the simultaneous
 variables (the start iterate counts, as in the solver's own relative test) - the weaker reading.
+User functions (spec/SolverFunctions.tla): registered under a plain name, a math-module name, a usable builtin
+name or another global name of the solver module; called from a simultaneous row, a derived-only row or both;
+the residual / exactness is judged with the function that was registered (it shadows every homonym).
 Readings: which equations are "derived-only" is the solver's own classification (Parser.Decoration
 after reduction); all others only need the residual bound.  Numeric predicates are computed by the
 projection in Fraction arithmetic on the reported floats; the right-hand sides are those submitted.
@@ -80,6 +83,7 @@ def run(rep):
     rep.extra['behaviour_realisations'] = len(items)
     items += forms_items(rep)
     items += chain_items(rep)
+    items += function_items(rep)
     items += [{'case': c} for c in sk.classics()]
     n_random = 300 if rep.tier == 'quick' else 5000
     items += [{'case': c} for c in sk.random_cases(rep.seed, n_random, contractive_share=0.4)]
@@ -126,6 +130,24 @@ def chain_items(rep):
         raise core.MachineryError('TLC emitted no behaviours for ' + cfg)
     rep.extra['chain_declarations_replayed'] = len(decls)
     return [{'case': sk.chain_case(d), 'behaviour': d, 'whole': False} for d in decls]
+
+
+def function_items(rep):
+    """spec/SolverFunctions.tla: user functions by the class of the name they are registered under"""
+    if rep.tier == 'thorough':
+        sk.expect_counterexample(rep, core, 'MC_SolverFunctions_seeded.cfg', 'C02_RegisteredFunctionAnswers',
+                                 module='MC_SolverFunctions')
+    res = core.tlc('MC_SolverFunctions', 'MC_SolverFunctions_quick.cfg', workers=1, tag='c02u')
+    if res.violated:
+        raise core.MachineryError('spec invariant %s violated in MC_SolverFunctions_quick.cfg' % res.violated)
+    rep.add_tlc(res, 'exhaustive MC_SolverFunctions_quick.cfg')
+    behs = list({core.canonical(b): b for b in core.json_of_printed(res, 'BEH')}.values())
+    if not behs:
+        raise core.MachineryError('TLC emitted no behaviours for MC_SolverFunctions_quick.cfg')
+    items = [{'case': c, 'behaviour': b} for b in behs for c in sk.function_cases(b)]
+    rep.extra['function_behaviours_replayed'] = len(behs)
+    rep.extra['function_cases'] = len(items)
+    return items
 
 
 def harvest_part(rep):
